@@ -475,6 +475,7 @@ def run_case(seed, tier="quick", case=None, known=()):
     """Generate (case is None) or replay (case given) one history. Returns a result dict."""
     init_worker()
     plan = _S["plan"]
+    plan.reset()  # nothing armed may survive from the previous history of this worker
     known = set(known)
     rng = random.Random(seed)
     if case is None:
